@@ -43,7 +43,7 @@ func (eng *Engine) checkLockset(fc *FnCtx, fr *Frame, fn *ssa.Function, spec *Fu
 			return false
 		}
 		fa, ok := u.X.(*ssa.FieldAddr)
-		if !ok || fa.X != recv {
+		if !ok || !isRecvValue(fa.X, recv) {
 			return false
 		}
 		st, ok := derefStructType(recv.Type())
